@@ -394,11 +394,16 @@ impl Instance {
             self.started_at = seams::now_secs() + self.skew_secs;
         }
         self.starts += 1;
+        crate::net::register(
+            &self.cfg.host(), self.idx, self.skew_secs, self.started_at,
+            self.mgr.as_ref().unwrap().clone()
+        );
         Ok(())
     }
 
     /// Discards every in-memory object of the instance.
     pub fn stop(&mut self) {
+        crate::net::unregister(&self.cfg.host());
         self.mgr = None;
         if let Some(pool) = self.pool.take() {
             pool.terminate();
